@@ -16,6 +16,7 @@ import (
 	_ "verifharness/internal/props/c12"
 	_ "verifharness/internal/props/c13"
 	_ "verifharness/internal/props/c14"
+	_ "verifharness/internal/props/c15"
 	_ "verifharness/internal/props/c16"
 	_ "verifharness/internal/props/c17"
 	_ "verifharness/internal/props/c18"
